@@ -72,6 +72,14 @@ fn seg_of(e: &Ev) -> Option<Seg> {
     e.get_other_event().map(|o| (e.point, o.point))
 }
 
+fn p64<F: geo_booleanop::boolean::Float>(c: Coord<F>) -> P {
+    pt(c.x.into(), c.y.into())
+}
+
+fn seg_of_g<F: geo_booleanop::boolean::Float>(e: &Rc<SweepEvent<F>>) -> Option<Seg> {
+    e.get_other_event().map(|o| (p64(e.point), p64(o.point)))
+}
+
 fn ctx_str(op: Operation) -> String {
     format!("op={}", op_name(op))
 }
@@ -435,8 +443,8 @@ pub fn c14(case: &Case, obs: &mut Obs) -> Result<(), Failure> {
 // C15
 
 /// reference event order where it decides: Some(true) = a before b
-fn reference_before(a: &Ev, b: &Ev) -> Option<bool> {
-    let (pa, pb) = (a.point, b.point);
+fn reference_before<F: geo_booleanop::boolean::Float>(a: &Rc<SweepEvent<F>>, b: &Rc<SweepEvent<F>>) -> Option<bool> {
+    let (pa, pb) = (p64(a.point), p64(b.point));
     if pa.x != pb.x {
         return Some(pa.x < pb.x);
     }
@@ -446,7 +454,7 @@ fn reference_before(a: &Ev, b: &Ev) -> Option<bool> {
     if a.is_left() != b.is_left() {
         return Some(!a.is_left());
     }
-    let (qa, qb) = (a.get_other_event()?.point, b.get_other_event()?.point);
+    let (qa, qb) = (p64(a.get_other_event()?.point), p64(b.get_other_event()?.point));
     let o = if a.is_left() { orient(pa, qa, qb) } else { orient(qa, pa, qb) };
     if o == 0.0 {
         None
@@ -513,10 +521,10 @@ pub fn check_order(evs: &[Ev], tag: &str, obs: &mut Obs, bits: u64) -> Result<()
     check_order_mode(evs, tag, obs, bits, false)
 }
 
-pub fn check_order_mode(evs: &[Ev], tag: &str, obs: &mut Obs, bits: u64, float_mode: bool) -> Result<(), Failure> {
+pub fn check_order_mode<F: geo_booleanop::boolean::Float>(evs: &[Rc<SweepEvent<F>>], tag: &str, obs: &mut Obs, bits: u64, float_mode: bool) -> Result<(), Failure> {
     let n = evs.len();
     let fail = |clause: &str, why: String| Failure::new(clause, format!("{} events: {}", tag, why));
-    let show = |e: &Ev| {
+    let show = |e: &Rc<SweepEvent<F>>| {
         let o = e.get_other_event().map(|o| o.point).unwrap_or(e.point);
         format!("[{} ({},{})->({},{}) {}]", if e.is_left() { "L" } else { "R" }, e.point.x, e.point.y, o.x, o.y, if e.is_subject { "subj" } else { "clip" })
     };
@@ -591,10 +599,10 @@ pub fn check_order_mode(evs: &[Ev], tag: &str, obs: &mut Obs, bits: u64, float_m
         obs.nontrivial = true;
     }
     // segment order on left events with overlapping x-extent
-    let lefts: Vec<&Ev> = evs.iter().filter(|e| e.is_left() && e.get_other_event().is_some()).take(48).collect();
+    let lefts: Vec<&Rc<SweepEvent<F>>> = evs.iter().filter(|e| e.is_left() && e.get_other_event().is_some()).take(48).collect();
     for i in 0..lefts.len() {
         for j in 0..lefts.len() {
-            let (s, t) = (seg_of(lefts[i]).unwrap(), seg_of(lefts[j]).unwrap());
+            let (s, t) = (seg_of_g(lefts[i]).unwrap(), seg_of_g(lefts[j]).unwrap());
             let c1 = compare_segments(lefts[i], lefts[j]);
             if i == j {
                 if c1 != Ordering::Equal {
@@ -729,13 +737,87 @@ pub fn check_segpair_order(d: &crate::props::segpair::SegPair, obs: &mut Obs) ->
     if d.subj.0 == d.subj.1 && collinear_overlap(s1, s2) {
         return Ok(());
     }
-    let mut evs = mk(d.s1, d.subj.0, 1);
-    evs.extend(mk(d.s2, d.subj.1, 2));
+    // in_out is not used by the orderings: here it says "write the zeros of segment 1 / 2 as negative zero"
+    let nz = |s: ((f64, f64), (f64, f64)), on: bool| {
+        let z = |v: f64| if on && v == 0.0 { -0.0 } else { v };
+        ((z(s.0 .0), z(s.0 .1)), (z(s.1 .0), z(s.1 .1)))
+    };
+    let mut evs = mk(nz(d.s1, d.in_out.0), d.subj.0, 1);
+    evs.extend(mk(nz(d.s2, d.in_out.1), d.subj.1, 2));
     obs.class("segment-pair-events");
+    if (d.in_out.0 || d.in_out.1) && [d.s1.0 .0, d.s1.0 .1, d.s1.1 .0, d.s1.1 .1, d.s2.0 .0, d.s2.0 .1, d.s2.1 .0, d.s2.1 .1].iter().any(|v| *v == 0.0) {
+        obs.class("negative-zero-coordinates");
+    }
     if strictly_inside(s1, s2.0) || strictly_inside(s1, s2.1) || strictly_inside(s2, s1.0) || strictly_inside(s2, s1.1) {
         obs.class("T-contact-pair");
     }
     check_order_mode(&evs, "segment pair", obs, 1, !d.integer)
+}
+
+/// the same for the f32 instantiation (coordinates must be f32 values)
+pub fn check_segpair_order_f32(d: &crate::props::segpair::SegPair, obs: &mut Obs) -> Result<(), Failure> {
+    let c32 = |p: (f64, f64)| Coord { x: p.0 as f32, y: p.1 as f32 };
+    let mk = |s: ((f64, f64), (f64, f64)), subj: bool, id: u32| -> Vec<Rc<SweepEvent<f32>>> {
+        let (a, b) = (c32(s.0), c32(s.1));
+        if a == b {
+            return vec![];
+        }
+        let e1 = SweepEvent::new_rc(id, a, false, Weak::new(), subj, true);
+        let e2 = SweepEvent::new_rc(id, b, false, Rc::downgrade(&e1), subj, true);
+        e1.set_other_event(&e2);
+        if e1 < e2 {
+            e2.set_left(true)
+        } else {
+            e1.set_left(true)
+        }
+        vec![e1, e2]
+    };
+    let w = |p: (f64, f64)| pt((p.0 as f32) as f64, (p.1 as f32) as f64);
+    let (s1, s2) = ((w(d.s1.0), w(d.s1.1)), (w(d.s2.0), w(d.s2.1)));
+    if s1.0 == s1.1 || s2.0 == s2.1 {
+        return Ok(());
+    }
+    if d.subj.0 == d.subj.1 && collinear_overlap(s1, s2) {
+        return Ok(());
+    }
+    let mut evs = mk(d.s1, d.subj.0, 1);
+    evs.extend(mk(d.s2, d.subj.1, 2));
+    obs.class("segment-pair-events-f32");
+    check_order_mode(&evs, "segment pair (f32)", obs, 1, true)
+}
+
+/// nearly degenerate f32 pairs with mixed magnitudes: a long segment with endpoints of magnitude 1e5..1e6 and a
+/// point near the origin on a 1/1024 grid that lies almost on it (coordinate differences are then inexact in f32)
+pub fn near_collinear_strategy_f32() -> proptest::strategy::BoxedStrategy<crate::props::segpair::SegPair> {
+    use crate::props::segpair::SegPair;
+    use proptest::prelude::*;
+    let r32 = |v: f64| (v as f32) as f64;
+    let big = || prop_oneof![(-1.0e6f64..1.0e6), (-1.0e5f64..1.0e5), (-3000.0f64..3000.0)];
+    let small = || (-4096i32..4096).prop_map(|i| i as f64 / 1024.0);
+    ((big(), big()), (big(), big()), (small(), small()), 0.0f64..1.0, -3i32..=3, -3i32..=3, 0u8..3, any::<bool>(), any::<bool>(), (big(), big()))
+        .prop_map(move |(a, b, o, t, u1, u2, kind, sa, sb, c)| {
+            let nudge = |v: f64, u: i32| {
+                let f = v as f32;
+                let x = f32::from_bits((f.to_bits() as i32 + u) as u32);
+                if x.is_finite() && (x - f).abs() <= f.abs() * 1e-5 + 1e-30 {
+                    x as f64
+                } else {
+                    f as f64
+                }
+            };
+            let a = (r32(a.0), r32(a.1));
+            let b = (r32(b.0), r32(b.1));
+            let c = (r32(c.0), r32(c.1));
+            // a point (almost) on a-b, either anywhere on it or the grid point near the origin closest to it
+            let q = if kind == 2 { (r32(o.0), r32(o.1)) } else { (nudge(a.0 + t * (b.0 - a.0), u1), nudge(a.1 + t * (b.1 - a.1), u2)) };
+            let (s1, s2) = match kind {
+                0 => ((a, b), (q, c)),
+                1 => ((a, b), (a, q)),
+                _ => ((a, b), (q, c)),
+            };
+            SegPair { s1, s2, subj: (sa, sb), in_out: (false, false), f32: true, integer: false }
+        })
+        .boxed()
 }
 
 /// float segment pairs in nearly degenerate position for the ordering predicates: a second segment that starts at
